@@ -14,7 +14,7 @@ Restriction (the property's): the alignment is well-formed (`PowOk`) and the ali
 its promoted representation type.
 
 * `cmp_by_value` — operands of the same signedness, or both non-negative (more generally:
-  whenever the common type is signed or both are non-negative, `cmp_by_value'`): all six operators
+  whenever the common type is signed or both are non-negative, `cmp_by_value_general`): all six operators
   return exactly the truth value of the relation between the denoted values.
 * `cmp_mixed_builtin` — in every case, mixed signedness included, the result is the built-in
   comparison `cCmp` of the aligned representations in the types `cmpTy` (the property's last
@@ -38,7 +38,7 @@ theorem cmp_mixed_builtin (op : CmpOp) (L R : IntTy) (hL : 1 ≤ L.bits) (hR : 1
   cmp_aligned op L R hL hR eL eR ρ hρ l r hl hr hwL hwR hal har
 
 /-- by value whenever the common type is signed or both operands are non-negative -/
-theorem cmp_by_value' (op : CmpOp) (L R : IntTy) (hL : 1 ≤ L.bits) (hR : 1 ≤ R.bits)
+theorem cmp_by_value_general (op : CmpOp) (L R : IntTy) (hL : 1 ≤ L.bits) (hR : 1 ≤ R.bits)
     (eL eR : Int) (ρ : Nat) (hρ : 2 ≤ ρ) (l r : Int) (hl : L.InRange l) (hr : R.InRange r)
     (hwL : PowOk L (eL - min eL eR).toNat ρ) (hwR : PowOk R (eR - min eL eR).toNat ρ)
     (hal : (promote L).InRange (aligned ρ eL (min eL eR) l))
@@ -62,7 +62,7 @@ theorem cmp_by_value (op : CmpOp) (L R : IntTy) (hL : 1 ≤ L.bits) (hR : 1 ≤ 
     (hsg : L.signed = R.signed ∨ (0 ≤ l ∧ 0 ≤ r)) :
     Layered.cmp op (sc L eL ρ l) (sc R eR ρ r)
       = .ok (cmpInt op (aligned ρ eL (min eL eR) l) (aligned ρ eR (min eL eR) r)) := by
-  apply cmp_by_value' op L R hL hR eL eR ρ hρ l r hl hr hwL hwR hal har
+  apply cmp_by_value_general op L R hL hR eL eR ρ hρ l r hl hr hwL hwR hal har
   rcases hsg with hs | hs
   · cases hLs : L.signed with
     | true =>
@@ -76,6 +76,24 @@ theorem cmp_by_value (op : CmpOp) (L R : IntTy) (hL : 1 ≤ L.bits) (hR : 1 ≤ 
       simp only [hLs, hRs, Bool.false_eq_true, ite_false] at h1 h2
       exact ⟨h1, h2⟩
   · exact Or.inr hs
+
+/-- the relation between the aligned representations **is** the relation between the denoted
+rational values `l · ρ^eL` and `r · ρ^eR` -/
+theorem den_order (op : CmpOp) (ρ : Nat) (hρ : 2 ≤ ρ) (eL eR l r : Int) :
+    cmpRat op (den ρ l eL) (den ρ r eR)
+      = cmpInt op (aligned ρ eL (min eL eR) l) (aligned ρ eR (min eL eR) r) :=
+  cmpRat_den_aligned ρ hρ op eL eR l r
+
+/-- `cmp_by_value` in terms of the denoted values -/
+theorem cmp_by_denoted_value (op : CmpOp) (L R : IntTy) (hL : 1 ≤ L.bits) (hR : 1 ≤ R.bits)
+    (eL eR : Int) (ρ : Nat) (hρ : 2 ≤ ρ) (l r : Int) (hl : L.InRange l) (hr : R.InRange r)
+    (hwL : PowOk L (eL - min eL eR).toNat ρ) (hwR : PowOk R (eR - min eL eR).toNat ρ)
+    (hal : (promote L).InRange (aligned ρ eL (min eL eR) l))
+    (har : (promote R).InRange (aligned ρ eR (min eL eR) r))
+    (hsg : L.signed = R.signed ∨ (0 ≤ l ∧ 0 ≤ r)) :
+    Layered.cmp op (sc L eL ρ l) (sc R eR ρ r) = .ok (cmpRat op (den ρ l eL) (den ρ r eR)) := by
+  rw [den_order op ρ hρ]
+  exact cmp_by_value op L R hL hR eL eR ρ hρ l r hl hr hwL hwR hal har hsg
 
 /-- equal exponents: the comparison of the representations (no restriction at all) -/
 theorem cmp_same_exponent (op : CmpOp) (L R : IntTy) (hL : 1 ≤ L.bits) (hR : 1 ≤ R.bits)
